@@ -566,6 +566,10 @@ def execute(rec: dict, res: RunResult) -> None:
                         w1 = ws
             if record:
                 trace0 = sim.trace
+                if rec["gran"] == "LINE":
+                    # reach measure only: which library lines the workload executes at all (denominator of preemption_sites)
+                    for cid, arg in set(sim.trace):
+                        res.reach("library_lines_executed", f"{sched.code_name(cid)}:{arg}")
             solo[t].append(out)
             solo_steps[t].append(sim.steps[0])
             nest_counts[(t, c)] = arm.count
@@ -665,6 +669,8 @@ def execute(rec: dict, res: RunResult) -> None:
         res.count("preemption_in_first_use_window")
     for f in sim.fired:
         res.reach("preemption_sites", ("L|" if rec["gran"] == "LINE" else "I|") + f[3])
+        if rec["gran"] == "LINE":
+            res.reach("library_lines_used_as_preemption_point", f[3])
         res.reach("distinct_interleavings", f"{f[3]}|{f[1]}>{f[2]}")
     a = arms.get((nested["thread"], nested["call"])) if nested else None
     if a is not None and a.fired:
@@ -761,6 +767,8 @@ def _run_sweep(rec, res, sweep, solo, solo_steps, fu_steps, w0, budgets, cold, t
         res.steps += sim.gstep
         for f in sim.fired:
             res.reach("preemption_sites", ("L|" if rec["gran"] == "LINE" else "I|") + f[3])
+        if rec["gran"] == "LINE":
+            res.reach("library_lines_used_as_preemption_point", f[3])
             res.reach("distinct_interleavings", f"{f[3]}|{f[1]}>{f[2]}")
         res.count("preemptions_fired", len(sim.fired))
         res.count("preemptions_fired_SWEEP", len(sim.fired))
